@@ -249,6 +249,7 @@ def run(ctx):
         'reported as an unrecognised form and needs the rule to be extended. Not decided: anything about std iterators themselves.')
     visibility(ctx)
     render.gate(ctx, rule='V2')
+    render.order(ctx, rule='V2')          # the id the gate tests is the layer index of the cel being drawn
     I = invariants.Inv(ctx)
     ok, why = I.get('I10')
     ctx.inst('V3', 'parent table', ok, why, None, key='asefile::layer::compute_parents|V3')
